@@ -48,9 +48,17 @@ class PropBase:
                 out.append(sc)
         return out
 
+    def enumerate(self, tier):
+        """small-scope exhaustive part (deterministic): every scenario of a bounded family; sharded by index"""
+        return iter(())
+
     def generate(self, rng, tier, shard, nshards, scale):
         if shard == 0:
             for sc in self.corpus():
+                yield sc
+        for k, sc in enumerate(self.enumerate(tier)):
+            if k % nshards == shard:
+                sc.setdefault('tags', []).append('enumerated')
                 yield sc
         for k in range(self.budget(tier, scale)):
             yield self.scenario(rng, tier)
@@ -71,6 +79,8 @@ class PropBase:
         return None
 
     def tally(self, dist, sc, lines_in, impl_out):
+        if 'enumerated' in sc.get('tags', ()):
+            dist['enumerated_scenarios'] = dist.get('enumerated_scenarios', 0) + 1
         for l in lines_in:
             k = 'op:' + l.split(' ', 1)[0]
             dist[k] = dist.get(k, 0) + 1
